@@ -217,6 +217,9 @@ func (r *runner) run(stream string, d *dg.Design, strict bool) {
 		}
 		if o.HasBody {
 			r.res.Count("op_with_body")
+			r.res.Count("body_verb=" + o.Method)
+		} else if !o.File {
+			r.res.Count("nobody_verb=" + o.Method)
 		}
 		for _, p := range o.Params {
 			r.res.Count("param_in=" + p.In)
@@ -341,6 +344,9 @@ func jobs(seed uint64, n int, res *vh.Result, own func(int) bool, f func(int, jo
 			sd, cnt := sanitize(d)
 			if i%3 == 1 {
 				sd = vary(sd, i/3)
+			}
+			if i%2 == 0 {
+				sd = reverb(sd, vh.NewRNG(seed*1000003+uint64(i)))
 			}
 			if res != nil {
 				for k, v := range cnt {
@@ -490,7 +496,7 @@ func main() {
 	r.res.Distinct = len(r.distinct)
 	r.res.Extra["model_cases"] = r.nModel
 	r.res.Extra["random_designs"] = n
-	r.res.Rule = "designs: 7 hand-written covering designs (all verbs, wildcards, absolute routes, base paths, every parameter location x required/optional/default, every body shape, tagged responses and errors, the four scheme kinds at service/method level, single-file servers), then designgen.Random(ExoticVerbs) designs sanitised into the partial hypotheses (exclusive bounds made inclusive, Bytes made String, API level security pushed down to the services, scopes kept on OAuth2-only requirements, one credential in the Authorization header, map typed query parameters made arrays), then the witness designs and every tenth random design exactly as generated; evaluations = operations mounted by the generated servers, each compared with both documents; distinct = distinct finalized HTTP descriptions (routes, parameters, bodies, responses, requirements) with at least one operation"
+	r.res.Rule = "designs: 10 hand-written covering designs (every verb x {no payload, payload over path/query/header/cookie/body, primitive body} x {one route, two routes with different verbs}, other verbs on a file server path, all verbs, wildcards, absolute routes, base paths, every parameter location x required/optional/default, every body shape, tagged responses and errors, the four scheme kinds at service/method level, single-file servers), then designgen.Random(ExoticVerbs) designs, every second one with verbs re-drawn independently of body presence (uniform over the eight verbs, second route with another verb), sanitised into the partial hypotheses (exclusive bounds made inclusive, Bytes made String, API level security pushed down to the services, scopes kept on OAuth2-only requirements, one credential in the Authorization header, map typed query parameters made arrays), then the witness designs and every tenth random design exactly as generated; evaluations = operations mounted by the generated servers, each compared with both documents; distinct = distinct finalized HTTP descriptions (routes, parameters, bodies, responses, requirements) with at least one operation"
 	if *worker < 0 && *replay != "" {
 		for _, c := range r.cases {
 			r.res.Cases = append(r.res.Cases, c)
